@@ -46,11 +46,14 @@ def cid_rows(spec):
     rows = [["d", "format", spec["format"]], ["d", "encoding", "utf-8"], ["d", "line delimiter", "lf"]]
     if spec.get("header"):
         rows.append(["d", "header", str(spec["header"])])
-    if spec.get("allowed"):
+    if spec.get("allowed") and not spec.get("allowed_declared_late"):
         rows.append(["d", "allowed characters", "%d:%d" % tuple(spec["allowed"])])
-    for field in spec["fields"]:
+    for index, field in enumerate(spec["fields"]):
         length = str(field["width"]) if spec["format"] == "fixed" else field.get("length", "")
         rows.append(["f", field["name"], "", "X" if field.get("empty") else "", length, field["type"], ""])
+        if spec.get("allowed") and spec.get("allowed_declared_late") and index == 0:
+            # a data format row may follow field rows: it describes the data, so it holds for every field
+            rows.append(["d", "allowed characters", "%d:%d" % tuple(spec["allowed"])])
     for check in spec["checks"]:
         rows.append(["c"] + list(check))
     return rows
@@ -71,7 +74,8 @@ def generate(seed, tier):
     if checks and swarm.random() < 0.25:
         checks.insert(swarm.randint(0, len(checks)), ["uniq", "IsUnique", "f0"])
     spec = {"format": fmt, "header": swarm.choice([0, 0, 1, 2]), "fields": fields, "checks": checks,
-            "allowed": swarm.choice([None, None, [32, 126], [32, 126], [33, 126]])}
+            "allowed": swarm.choice([None, None, [32, 126], [32, 126], [33, 126]]),
+            "allowed_declared_late": swarm.random() < 0.3}
     pool = ["ab", "ab", "xa", "ya", "b", "", "a!", "aü", "abcde", " a", "xy"]
     if fmt == "delimited":
         pool.append("a\nb")  # a line break inside a cell
@@ -540,6 +544,8 @@ def candidates(scenario):
         yield candidate
     if scenario["cid"].get("header"):
         yield lib.with_value(scenario, ["cid", "header"], scenario["cid"]["header"] - 1)
+    if scenario["cid"].get("allowed_declared_late"):
+        yield lib.with_value(scenario, ["cid", "allowed_declared_late"], False)
     if scenario["cid"].get("allowed"):
         yield lib.with_value(scenario, ["cid", "allowed"], None)
     if scenario["cid"]["format"] != "delimited":
